@@ -275,6 +275,27 @@ impl SubCheck for Reverse {
         } else {
             obs.label("systemtime_unrepresentable");
         }
+        // a leap-second reading of this second (when it is a :59): the system clock cannot show second 60,
+        // the instant it denotes is the one its timestamp fields add up to (seconds + nanoseconds >= 10^9)
+        if m.secs % 60 == 59 && m.frac < 1_000_000_000 {
+            obs.nt("leap_reading_to_system_time");
+            let lm = Ndt { frac: m.frac + 1_000_000_000, ..*m };
+            let ldt = Utc.from_utc_datetime(&conv::ndt(lm));
+            let lt = t + NS;
+            let (secs, sub) = (lt.div_euclid(NS), lt.rem_euclid(NS) as u32);
+            let st = if secs >= 0 {
+                UNIX_EPOCH.checked_add(Duration::new(secs as u64, sub))
+            } else {
+                UNIX_EPOCH.checked_sub(Duration::new((-secs) as u64, 0)).and_then(|x| x.checked_add(Duration::new(0, sub)))
+            };
+            if let Some(st) = st {
+                let to: SystemTime = call("SystemTime::from (leap reading)", || SystemTime::from(ldt))?;
+                ensure_eq!(to, st, "SystemTime::from(leap-second reading {lm:?})");
+                let fo = FixedOffset::east_opt((t.rem_euclid(172_799) - 86_399) as i32).unwrap();
+                let to2: SystemTime = call("SystemTime::from (leap reading)", || SystemTime::from(ldt.with_timezone(&fo)))?;
+                ensure_eq!(to2, st, "SystemTime::from(leap-second reading {lm:?} at {fo})");
+            }
+        }
         Ok(())
     }
 }
